@@ -116,6 +116,19 @@ def run(ctx):
                 p[-1] = -eps / 4 + off
                 cases.append({"fn": "angle_sequence", "p": [hexf(x) for x in p], "eps": hexf(eps), "suc": hexf(suc),
                               "npseed": rng.randrange(2 ** 31), "shape": "cancel", "family": True, "timeout": 300})
+        # directed: exactly-zero end coefficients (both, one side, all), with eps/4 above the known-finding threshold
+        for n in ([2, 3, 4, 6] if quick else range(1, 9)):
+            for kind in ("both", "left", "right", "zero"):
+                for eps in ([1e-2] if quick else [4.1e-3, 1e-2]):
+                    p = gen_vec(rng, n, 0.6, rng.choice(["sym", "generic"]))
+                    if kind in ("both", "left"):
+                        p[0] = 0.0
+                    if kind in ("both", "right"):
+                        p[-1] = 0.0
+                    if kind == "zero":
+                        p = [0.0] * (n + 1)
+                    cases.append({"fn": "angle_sequence", "p": [hexf(x) for x in p], "eps": hexf(eps), "suc": hexf(rng.choice([0.99, 1 - 1e-4])),
+                                  "bits": Q.seed_vectors(rng, n, 1)[0], "shape": "zero-ends:" + kind, "family": True, "timeout": 300})
         # outside the totality family: larger n, large norms, odd settings
         for j in range(30 if quick else 300):
             n = rng.choice([13, 16, 20, 25, 30, rng.randint(1, 12)])
